@@ -11,9 +11,11 @@
       [shape_ok cap]  the occupied cells always form a tree: the parent of slot n (n >= 2) is a slot m < n, and
                       a right child (odd slot >= 3) is allocated after its left sibling.
 
-    TODO (C26): when coq/Gen/Gen_brc.v (the translation of cds/details/bit_reverse_counter.h) exists, prove
-    [MsPq.brc_inc] / [MsPq.brc_dec] equal to the generated functions and replace the bounded sweep by the
-    general theorems of Properties_C26 (brc_dec_undoes_inc, brc_slot_below_ceil2, brc_parent_allocated_first). *)
+    Tie to the translated source: LV.Proofs.MsPqBrcGen proves [MsPq.brc_inc] / [MsPq.brc_dec] equal to the functions
+    GENERATED from cds/details/bit_reverse_counter.h (LV.Gen.Gen_brc, property C26) on every representable state.
+    Still open: replacing the bounded sweep below by the general theorems of C26 (its closed form [C26_Counter.st],
+    inc_st / dec_st) -- it needs [slot_range], [slot_inj], the parent / left-sibling order for every n, derived from
+    the closed form 2^h + rev h (n - 2^h); the quantifier of C11 (capacities 1..16) does not need it. *)
 From Coq Require Import ZArith List Bool Lia PeanoNat.
 From LV Require Import Model.MsPq.
 Import ListNotations.
